@@ -27,6 +27,17 @@ NESTINGS = ["top", "tuple_field", "list_elem", "call_arg", "select_arm", "func_b
 SYNTAX = [("=", ""), (";", ""), ("(", ""), (")", ""), ("{", ""), ("}", ")"), ("=", "=="), (",", ";")]
 
 
+TEMPLATE_TEXTS = [
+    'let a = 1;\n\n\nlet x = "@{item}" % 1;\n',
+    'let a = 1;\nlet b = 2;\n\n// c\nlet x = "v: @{item.a} and @{ item.a + 1 } end" % {a = 1};\nlet y = 3;\n',
+    'let t = {a = 1};\nlet x = "first line\nsecond @{item.a} line\nthird @{item.a} x" % t;\nlet z = 1;\n',
+    'let t = {a = 1};\nlet x = "q\\"uote @{item.a} back\\\\slash @{item.a}" % t;\n',
+    'let t = {a = 1};\nlet x = "\u00e9t\u00e9 \u65e5\u672c @{item.a} z @{item.a}" % t;\n',
+    'let f = func (t) => "in func @{t.a + item}" % 1;\nlet m = module {a = 1} => (r) {\n  let r = "m @{mod.a + item}" % 2;\n};\n',
+    'let l = [\n  "a @{item}" % 1,\n  "b\n @{item}" % 2,\n  select ("x", "d @{item}" % 3) => { x = "e @{item}" % 4 },\n];\n',
+]
+
+
 def theorem_names():
     if not os.path.exists(THEOREM_FILE):
         return []
@@ -228,6 +239,78 @@ def run(tier, seed):
             if bp is not None and (primary[0] - c["extra"], primary[1]) != bp:
                 real.append({"source": c["text"], "why": "position moved by something else than the %d lines added before: %r vs %r"
                              % (c["extra"], bp, primary), "kind": c["kind"], "form": c.get("form"), "nesting": c["nesting"]})
+    # ---- correspondence of the positioned translator (pos/PTranslate.v, extracted) with translate.rs: the real parser's
+    # positioned AST goes through the model, the (op, line, column) lists must be equal
+    corr = []
+    ncmp = ntriples = 0
+    okm, mmsg = C.build_model_runner()
+    if not okm:
+        broken.append({"extraction": mmsg[-1500:]})
+    else:
+        import shutil
+        import subprocess
+        import programs as P2
+        root = os.path.join(C.scratch_root(), "c17-%d" % os.getpid())
+        shutil.rmtree(root, ignore_errors=True)
+        os.makedirs(root)
+        texts = [c["text"] for c in cases if c["kind"] != "syntax"][: (150 if tier == "quick" else 1500)]
+        for _ in range(250 if tier == "quick" else 4000):
+            pr_, _c = P2.gen_program(rng, rng.randint(1, 6), max_depth=4, p_bad=0.0)
+            t = P2.prog_text(pr_).replace(", ", ",\n  ")
+            if rng.random() < 0.5:
+                t = "\n" * rng.randint(1, 4) + t
+            texts.append(t)
+        texts += TEMPLATE_TEXTS
+        paths = []
+        for i, t in enumerate(texts):
+            pth = os.path.join(root, "p%d.ucg" % i)
+            open(pth, "w").write(t)
+            paths.append(pth)
+        pp = subprocess.run([os.path.join(C.TARGET, "debug", "posprobe")], input="\n".join(paths) + "\n", capture_output=True, text=True,
+                            env=C.ENV, timeout=1200)
+        blocks = {}
+        cur = None
+        for line in pp.stdout.split("\n"):
+            if line.startswith("FILE "):
+                cur = line[5:]
+                blocks[cur] = {}
+            elif cur and " " in line:
+                k, _, v = line.partition(" ")
+                blocks[cur][k] = v
+        todo = [(pth, t, blocks.get(pth, {})) for pth, t in zip(paths, texts)]
+        todo = [(pth, t, b_) for pth, t, b_ in todo if "AST" in b_ and "OPS" in b_]
+        mo = C.model("pos", ["AST " + b_["AST"] for _, _, b_ in todo])
+        for (pth, t, b_), m in zip(todo, mo):
+            parts = dict(x.split(" ", 1) for x in m.split("\t") if " " in x)
+            if "MOPS" not in parts:
+                corr.append({"source": t, "why": "positioned model: " + m[:200]})
+                continue
+            ncmp += 1
+            real_ops = [o for o in b_["OPS"].split(" ") if o]
+            model_ops = [o for o in parts["MOPS"].split(" ") if o]
+            ntriples += len(real_ops)
+            mask = lambda o: re.sub(r"^Val:Str:x[0-9a-f]*@", "Val:Str:*@", o)
+            trace_ph = "Val:Str:x" + "<expr>".encode().hex()
+            same = len(real_ops) == len(model_ops) and all(a == b2 or (b2.startswith(trace_ph) and mask(a) == mask(b2))
+                                                             for a, b2 in zip(real_ops, model_ops))
+            if not same:
+                k = next((j for j, (a, b2) in enumerate(zip(real_ops, model_ops)) if a != b2 and not b2.startswith(trace_ph)), min(len(real_ops), len(model_ops)))
+                corr.append({"source": t, "why": "the positioned translator model and translate.rs differ at op %d: real %s, model %s"
+                             % (k, real_ops[k:k + 2], model_ops[k:k + 2]), "correspondence": "pos/PTranslate.v ptranslate vs AST::translate positions"})
+            elif parts.get("MERASE") != "ok" or "placed=1" not in parts.get("MTPL", ""):
+                corr.append({"source": t, "why": "model self-check failed: %s / %s" % (parts.get("MERASE"), parts.get("MTPL"))})
+        shutil.rmtree(root, ignore_errors=True)
+    cov["positioned_translations_compared"] = ncmp
+    cov["op_position_triples_compared"] = ntriples
+    # a listed finding: an escape that becomes a line feed inside a template moves the positions of later @{...} expressions down
+    esc = 'let tv = {a = 1};\nlet bad = "nl\\nescape @{tv.nope}" % tv;\nlet after = 2;\n'
+    er = C.harness("eval", [{"src": esc, "strict": True}])[0]
+    pe, _v = positions(er.get("err", ""))
+    if pe is not None and pe[0] != 2:
+        if ck.is_known("C17-template-escape-newline"):
+            ck.known_finding("C17-template-escape-newline", "a fault inside @{...} after a \\n escape in the same format string is reported on line %d, the statement is on line 2" % pe[0])
+        else:
+            real.append({"source": esc, "why": "primary position line %d is outside the faulty statement (line 2)" % pe[0], "kind": "template_escape", "nesting": "template_expr"})
     cov["evaluations"] = len(cases)
     cov["distinct_nontrivial"] = len(set(c["text"] for c in cases))
     cov["rule"] = ("valid multi-line programs of 3..12 statements with exactly one fault (unknown name, run-time type mismatch, missing field, "
@@ -246,6 +329,10 @@ def run(tier, seed):
             by[r["kind"] + "/" + r["nesting"]] = by.get(r["kind"] + "/" + r["nesting"], 0) + 1
         ck.violation({"kind": "a diagnostic does not point at the statement that causes it", "failing": r0, "more": len(real) - 1,
                       "by_kind": by, "broken": broken})
+    elif corr:
+        r0 = min(corr, key=lambda r: len(r["source"]))
+        ck.violation({"kind": "the positioned translator model no longer corresponds to translate.rs; no program was found whose diagnostic "
+                              "points outside the faulty statement", "failing": r0, "more": len(corr) - 1, "broken": broken}, nofail=True)
     elif broken:
         ck.violation({"kind": "proof obligation no longer checks", "broken": broken, "theorems": thms}, nofail=True)
     return ck.finish()
